@@ -236,3 +236,100 @@ Theorem shipped_zone_construct_skipped : forall z W, In z shipped_zones -> wall_
   (wall_in_range (W - MEG * g) = true -> convert_naive z W false false = Ok (W - MEG * g, false)).
 Proof. exact shipped_construct_skipped. Qed.
 Print Assumptions shipped_zone_construct_skipped.
+
+(* ---- the specification side itself: Spec/Zone.v IS the algorithm of CPython's pure-Python zoneinfo.
+   Gen/StdlibZone.v is the machine translation of zoneinfo/_zoneinfo.py (regenerated on every run from the staged interpreter's standard
+   library): _ts_to_local, _get_local_timestamp, _find_trans, utcoffset, fromutc; the last three specialised to dt not None and
+   `_tz_after` a plain _ttinfo (the POSIX-rule tail _TZStr is OUT OF SCOPE: the harness expands rule transitions into the table).
+   A table z is encoded as the data ZoneInfo._load_file stores (Proofs/StdlibZoneFacts.v: trans_utc = times, utcoffsets = z_init :: offsets,
+   trans_idx = 1..n, _tti_before = z_init = utcoffsets[0], _tz_after = last offset); unix_zone z = the same table in Unix seconds,
+   wall_second d = seconds of the datetime d since 0001-01-01T00:00:00 (the convention of Spec/Zone.v) = _get_local_timestamp(d) + EPOCH_S.
+   bisect.bisect_right is the library contract on sorted lists (Lib/PyList.v); wf_zone makes every list handed to it sorted. ---- *)
+From PV Require Import Lib.PyList Model.StdlibZoneObj Gen.StdlibZone Proofs.PyListFacts Proofs.StdlibZoneFacts.
+
+(* _ts_to_local builds exactly the wall thresholds off_local compares with (max / min of neighbouring offsets): EVERY table, no hypothesis *)
+Theorem spec_is_stdlib_ts_to_local : forall z,
+  sl_ts_to_local (enc_idx z) (enc_utc z) (enc_offs z) = Ok [walls z false; walls z true].
+Proof. exact sl_ts_to_local_spec. Qed.
+Print Assumptions spec_is_stdlib_ts_to_local.
+
+(* off_local reads those thresholds: it is the offset in force at the insertion point of w (every table, every w) *)
+Theorem spec_is_stdlib_off_local_reads_walls : forall f tr init w,
+  off_local_l init tr w f = nth (Z.to_nat (bisect_right (walls_l f init tr) w)) (init :: map snd tr) 0.
+Proof. exact off_local_bisect. Qed.
+Print Assumptions spec_is_stdlib_off_local_reads_walls.
+
+(* ZoneInfo.utcoffset(dt) = off_local at the wall second of dt with dt.fold: every well-formed table, EVERY datetime (any integer fields) *)
+Theorem spec_is_stdlib_utcoffset : forall z d (f : bool), wf_zone z = true -> dt_fold d = Z.b2z f ->
+  sl_utcoffset (stdlib_zone (unix_zone z)) d = Ok (off_local z (wall_second d) f).
+Proof. exact sl_utcoffset_is_off_local. Qed.
+Print Assumptions spec_is_stdlib_utcoffset.
+
+(* the same without the epoch shift and with the weakest hypothesis used: the local list of that fold is sorted *)
+Theorem spec_is_stdlib_utcoffset_sorted : forall z d (f : bool), dt_fold d = Z.b2z f -> sortedb (walls z f) = true ->
+  sl_utcoffset (stdlib_zone z) d = Ok (off_local z (sl_get_local_timestamp (stdlib_zone z) d) f).
+Proof. exact sl_utcoffset_spec. Qed.
+Print Assumptions spec_is_stdlib_utcoffset_sorted.
+
+(* ZoneInfo.fromutc(dt) = render at second granularity: wall second u + off_utc z u, fold = fold_utc z u — every well-formed table
+   that does not consist of exactly ONE transition, every datetime *)
+Theorem spec_is_stdlib_fromutc : forall z d, wf_zone z = true -> length (z_trans z) <> 1%nat ->
+  exists d', sl_fromutc (stdlib_zone (unix_zone z)) d = Ok d' /\
+             wall_second d' = wall_second d + off_utc z (wall_second d) /\
+             dt_fold d' = Z.b2z (fold_utc z (wall_second d)).
+Proof. exact sl_fromutc_is_render. Qed.
+Print Assumptions spec_is_stdlib_fromutc.
+
+(* a table of exactly one transition and no POSIX tail (TZif version 1 data): the pure-Python fromutc keeps the fold only AT the transition
+   second — a defect of CPython's _zoneinfo.py (the C implementation and Spec/Zone.v give fold = 1 on the whole repeated interval);
+   in the staged tzdata 9 shipped zones have that shape with a backward LMT -> standard-time step (Africa/Bangui, Brazzaville, Harare, Kigali,
+   Kinshasa, Lome, Maputo, Mbabane, Indian/Mayotte; a TZ string without DST parses to a plain _ttinfo): there _zoneinfo.py returns fold = 0 one
+   second after the step where the C zoneinfo.ZoneInfo returns 1 (checked on the staged interpreter).  The oracle of the harness and pendulum
+   use the C class, which agrees with Spec/Zone.v *)
+Theorem spec_is_stdlib_fromutc_single : forall init t o d,
+  let z := mkzone init [(t, o)] in
+  let u := sl_get_local_timestamp (stdlib_zone z) d in
+  sl_fromutc (stdlib_zone z) d = Ok (fromutc_result d (off_utc z u) (fold_utc z u && (u <=? t))).
+Proof. exact sl_fromutc_single. Qed.
+Print Assumptions spec_is_stdlib_fromutc_single.
+
+Theorem spec_is_stdlib_fromutc_single_refuted :
+  exists z d, wf_zone z = true /\ length (z_trans z) = 1%nat /\
+    let u := sl_get_local_timestamp (stdlib_zone z) d in
+    sl_fromutc (stdlib_zone z) d <> Ok (fromutc_result d (off_utc z u) (fold_utc z u)).
+Proof. exact sl_fromutc_single_refuted. Qed.
+Print Assumptions spec_is_stdlib_fromutc_single_refuted.
+
+(* well-formed tables hand sorted lists to bisect_right (its contract), and the epoch constants are the calendar's *)
+Theorem spec_is_stdlib_bisect_inputs_sorted : forall z, wf_zone z = true ->
+  sortedb (enc_utc z) = true /\ sortedb (walls z false) = true /\ sortedb (walls z true) = true.
+Proof. exact wf_zone_bisect_inputs_sorted. Qed.
+Print Assumptions spec_is_stdlib_bisect_inputs_sorted.
+
+Theorem spec_is_stdlib_epoch : sl_EPOCHORDINAL = ymd2ord 1970 1 1 /\ EPOCH_S = (sl_EPOCHORDINAL - 1) * 86400.
+Proof. exact sl_EPOCHORDINAL_is_spec. Qed.
+Print Assumptions spec_is_stdlib_epoch.
+
+(* bisect.py's own binary search (translated: the statements bisect_right(a, x) executes, while loop on fuel) returns the contract model
+   on every sorted list, and never runs out of fuel on any list *)
+Theorem spec_is_stdlib_bisect_right : forall a x, sortedb a = true -> sl_bisect_right_py a x = Some (bisect_right a x).
+Proof. exact sl_bisect_right_py_spec. Qed.
+Print Assumptions spec_is_stdlib_bisect_right.
+
+Theorem spec_is_stdlib_bisect_right_total : forall a x, sl_bisect_right_py a x <> None.
+Proof. exact sl_bisect_right_py_total. Qed.
+Print Assumptions spec_is_stdlib_bisect_right_total.
+
+Theorem spec_is_stdlib_bisect_right_is_count : forall l x, sortedb l = true -> bisect_right l x = count_le l x.
+Proof. exact bisect_right_count. Qed.
+Print Assumptions spec_is_stdlib_bisect_right_is_count.
+
+(* the statements are not vacuous *)
+Theorem spec_is_stdlib_zone_examples :
+  let z := mkzone 3600 [(1000, 7200); (5000, 3600); (9000, 7200)] in
+  wf_zone z = true /\
+  sl_ts_to_local (enc_idx z) (enc_utc z) (enc_offs z) = Ok [[8200; 12200; 16200]; [4600; 8600; 12600]] /\
+  sl_utcoffset (stdlib_zone z) (mksdt 719163 2 20 0 0) = Ok 7200 /\ sl_utcoffset (stdlib_zone z) (mksdt 719163 2 30 0 1) = Ok 3600 /\
+  sl_fromutc (stdlib_zone z) (mksdt 719163 1 23 30 0) = Ok (mksdt 719163 2 23 30 1).
+Proof. exact sl_zone_examples. Qed.
+Print Assumptions spec_is_stdlib_zone_examples.
